@@ -618,6 +618,16 @@ fn build_tera() -> Tera {
         ("json/pretty", "{{ v | json_encode(pretty=true) }}"),
         ("json/compact", "{{ v | json_encode(pretty=false) }}"),
         ("json/var", "{{ v | json_encode(pretty=p) }}"),
+        // the codecs as filter sections inside a set block, over a body that comes from an INCLUDE
+        // (two captures open at the include; seeded change C20-12 = C05-10 wrote the included text
+        // into the outermost one, so the codec encoded nothing)
+        ("payload", "{{ s }}"),
+        (
+            "nested/set-filter-include",
+            "{% set o1 %}{% filter urlencode_strict %}{% include \"payload\" %}{% endfilter %}{% endset %}{{ o1 }}|\
+             {% set o2 %}{% filter b64_encode %}{% include \"payload\" %}{% endfilter %}{% endset %}{{ o2 }}|\
+             {% set o3 %}{% filter json_encode %}{% include \"payload\" %}{% endfilter %}{% endset %}{{ o3 }}",
+        ),
     ] {
         tpls.push((n.to_string(), src.to_string()));
     }
@@ -752,6 +762,15 @@ fn judge_string(tera: &Tera, s: &str, acc: &mut Acc, sample: bool) {
             );
         }
         acc.case(nonempty, "filter-section:compared");
+        let e = engine::render(tera, "nested/set-filter-include", &ctx);
+        if e != b {
+            acc.violation(
+                "filter-section-differs-from-expression",
+                format!("the codecs as filter sections in a set block around `{{% include \"payload\" %}}` (payload = `{{{{ s }}}}`) give {}, `{src_ctx}` gives {}", e.show(), b.show()),
+                || json!({"template": "nested/set-filter-include", "s": s}),
+            );
+        }
+        acc.case(nonempty, "filter-section-in-set-block-over-include:compared");
         let as_text = !s.contains("{{") && !s.contains("{%") && !s.contains("{#") && !s.ends_with('{');
         if as_text {
             let src_text = sect(s);
